@@ -35,40 +35,37 @@ impl<T: RealNumber> DenseMatrix<T> {
         ensures dst.wf(), dst.nrows == nrows, dst.ncols == ncols,
             // logical row-major order is preserved
             forall|k: int| 0 <= k < nrows * ncols ==> dst.rm(k) == self.rm(k), //# reshape-preserves-row-major-order
-//@before for r in 0..self.nrows {
-        proof {
-            assert((dst_r as int) * (ncols as int) == 0) by(nonlinear_arith) requires dst_r == 0;
-            assert(0 * (self.ncols as int) == 0) by(nonlinear_arith);
-        }
-//@before for c in 0..self.ncols {
-            proof {
-                assert((r as int + 1) * (self.ncols as int) == (r as int) * (self.ncols as int) + (self.ncols as int)) by(nonlinear_arith);
-            }
-//@after dst_r += 1;
-                    proof {
-                        assert((dst_r as int) * (ncols as int) == (dst_r as int - 1) * (ncols as int) + (ncols as int)) by(nonlinear_arith);
-                    }
 //@loop 1
             invariant self.wf(), dst.wf(), dst.nrows == nrows, dst.ncols == ncols, self.nrows * self.ncols == nrows * ncols,
                 (dst_r as int) * (ncols as int) + (dst_c as int) == r * self.ncols, dst_c < ncols || (ncols == 0 && dst_c == 0),
                 forall|k: int| 0 <= k < r * self.ncols ==> dst.rm(k) == self.rm(k),
+//@loopbody 1
+            proof {
+                assert((r as int + 1) * (self.ncols as int) == (r as int) * (self.ncols as int) + (self.ncols as int)) by(nonlinear_arith);
+            }
 //@loop 2
                 invariant self.wf(), dst.wf(), dst.nrows == nrows, dst.ncols == ncols, self.nrows * self.ncols == nrows * ncols,
                     r < self.nrows,
                     (r as int + 1) * (self.ncols as int) == (r as int) * (self.ncols as int) + (self.ncols as int),
                     (dst_r as int) * (ncols as int) + (dst_c as int) == r * self.ncols + c, dst_c < ncols || (ncols == 0 && dst_c == 0),
                     forall|k: int| 0 <= k < r * self.ncols + c ==> dst.rm(k) == self.rm(k),
-//@before dst.set(dst_r, dst_c, self.get(r, c));
+//@loopbody 2
+                // state at the start of the body: the cell about to be written is (r0, c0) = row-major position k0 of both matrices
                 let ghost k0 = r as int * self.ncols as int + c as int;
                 let ghost pre = dst;
+                let ghost r0 = dst_r as int;
+                let ghost c0 = dst_c as int;
                 proof {
                     lemma_rowmajor_bound(r as int, c as int, self.nrows as int, self.ncols as int);
                     assert(ncols > 0) by { if ncols == 0 { assert(nrows * ncols == 0) by(nonlinear_arith) requires ncols == 0; } }
-                    lemma_row_lt(dst_r as int, dst_c as int, ncols as int, nrows as int);
-                    lemma_divmod(dst_r as int, dst_c as int, ncols as int);
+                    lemma_row_lt(r0, c0, ncols as int, nrows as int);
+                    lemma_divmod(r0, c0, ncols as int);
                     lemma_divmod(r as int, c as int, self.ncols as int);
+                    // the position reached when the write cursor wraps to the next row
+                    assert((r0 + 1) * (ncols as int) == r0 * (ncols as int) + (ncols as int)) by(nonlinear_arith);
                 }
-//@after dst.set(dst_r, dst_c, self.get(r, c));
+//@loopend 2
+                // state at the end of the body: position k0 has been copied, every earlier position is untouched
                 proof {
                     assert(dst.rm(k0) == self.rm(k0));
                     assert forall|k: int| 0 <= k < k0 implies dst.rm(k) == self.rm(k) by {
@@ -76,7 +73,7 @@ impl<T: RealNumber> DenseMatrix<T> {
                         assert(0 <= k % nc < nc && k == (k / nc) * nc + k % nc && 0 <= k / nc) by(nonlinear_arith) requires 0 <= k, nc > 0;
                         lemma_row_lt(k / nc, k % nc, nc, nrows as int);
                         assert(pre.rm(k) == self.rm(k));
-                        assert(!(k / nc == dst_r && k % nc == dst_c));
+                        assert(!(k / nc == r0 && k % nc == c0));
                     }
                 }
 //@end
@@ -96,10 +93,11 @@ impl<T: RealNumber> DenseMatrix<T> {
                 invariant self.wf(), v.len() == self.nrows * self.ncols, r < self.nrows,
                     forall|r2: int, c2: int| 0 <= r2 < r && 0 <= c2 < self.ncols ==> v[r2 * self.ncols + c2] == self.at(r2, c2),
                     forall|c2: int| 0 <= c2 < c ==> v[r * self.ncols + c2] == self.at(r as int, c2),
-//@before v[r * self.ncols + c] = self.get(r, c);
+//@loopbody 2
                 proof { lemma_rowmajor_bound(r as int, c as int, self.nrows as int, self.ncols as int); }
                 let ghost vpre = v@;
-//@after v[r * self.ncols + c] = self.get(r, c);
+//@loopend 2
+                // state at the end of the body: rows before r are untouched by the write to position (r, c)
                 proof {
                     assert forall|r2: int, c2: int| 0 <= r2 < r && 0 <= c2 < self.ncols implies v[r2 * self.ncols + c2] == self.at(r2, c2) by {
                         lemma_rowmajor_bound(r2, c2, self.nrows as int, self.ncols as int);
@@ -144,7 +142,7 @@ impl<T: RealNumber> DenseMatrix<T> {
                 invariant m.wf(), m.nrows == nrows, m.ncols == ncols, values@.len() == nrows * ncols, row < nrows,
                     forall|r2: int, c2: int| 0 <= r2 < row && 0 <= c2 < ncols ==> m.at(r2, c2) == values@[r2 * ncols + c2],
                     forall|c2: int| 0 <= c2 < col ==> m.at(row as int, c2) == values@[row * ncols + c2],
-//@before m.set(row, col, values[col + row * ncols]);
+//@loopbody 2
                 proof { lemma_rowmajor_bound(row as int, col as int, nrows as int, ncols as int); }
 //@end
 
